@@ -1478,7 +1478,7 @@ class composite_if(x12_node):
 
         if self.usage == 'R':
             good_flag = False
-            for sub_ele in comp_data:
+            for sub_ele in ([] if comp_data is None else comp_data):
                 if sub_ele is not None and len(sub_ele.get_value()) > 0:
                     good_flag = True
                     break
